@@ -912,6 +912,12 @@ func (e *Env) call(n *ECall) Val {
 		a := e.tr(n.Args[0])
 		b := e.tr(n.Args[1])
 		return Val{T: fmt.Sprintf("(= (s-ref %s) (s-ref %s))", a.T, b.T), S: "Bool", GT: types.Typ[types.Bool]}
+	case "runeLen":
+		v := e.tr(n.Args[0])
+		return Val{T: fmt.Sprintf("(rune-len %s)", v.T), S: g.idx(), GT: types.Typ[types.Int]}
+	case "runeAt":
+		v := e.tr(n.Args[0])
+		return Val{T: fmt.Sprintf("(rune-at %s %s)", v.T, e.asIdx(e.tr(n.Args[1]))), S: g.isort(32), GT: types.Typ[types.Int32]}
 	case "slen":
 		v := e.tr(n.Args[0])
 		return Val{T: fmt.Sprintf("(slen %s)", v.T), S: g.idx(), GT: types.Typ[types.Int]}
